@@ -14,6 +14,14 @@ demos="$(git ls-files -o --exclude-standard | grep -i 'seeded.*_test.go' )"
 for d in $demos; do mkdir -p "$out/demo/$(dirname "$d")"; cp "$d" "$out/demo/$d"; done
 [ -f SEEDED.md ] && cp SEEDED.md "$out/SEEDED.md"
 demodir="./$(dirname "$(echo "$demos" | head -1)")"
+# evaluate on a fresh worktree of /repo's CURRENT head (the agent's worktree may predate a fix commit)
+ev="/tmp/seedeval-$name"
+git -C /repo worktree remove --force "$ev" >/dev/null 2>&1; rm -rf "$ev"
+git -C /repo worktree add -q --detach "$ev" HEAD || exit 2
+cd "$ev" || exit 2
+git apply "$out/patch.diff" || { echo "seeded $name: patch does not apply to the current head"; exit 2; }
+cp -r "$out/demo/." "$ev/"
+wt="$ev"
 # with the change
 suite_with="fail"; go build ./... && go test -vet=off -count=1 -skip TestSeededDemo ./... >/dev/null 2>&1 && suite_with="pass"
 demo_with="pass"; go test -vet=off -count=1 -run TestSeededDemo "$demodir" >/dev/null 2>&1 || demo_with="fail"
@@ -30,6 +38,7 @@ for p in $prop "$@"; do
   echo "  check $p quick: exit $rc  $inv"
   results="$results{\"check\":\"$p quick\",\"exit\":$rc,\"invariants\":\"$inv\"},"
 done
+git -C /repo worktree remove --force "$ev" >/dev/null 2>&1
 cat > "$out/meta.json" <<META
 {
  "id": "$name",
